@@ -45,6 +45,14 @@ type kvAddData struct {
 // AddVertex adds an edge to the graph, if it already exists
 // in the graph, it is replaced
 func (kgdb *KVInterfaceGDB) AddVertex(vertices []*gdbi.Vertex) error {
+	vertices = lastVersions(vertices)
+	for _, vert := range vertices {
+		if vert.Validate() == nil {
+			if err := kgdb.unindexVertex(vert.ID); err != nil {
+				return err
+			}
+		}
+	}
 	err := kgdb.kvg.kv.BulkWrite(func(tx kvi.KVBulkWrite) error {
 		var bulkErr *multierror.Error
 		for _, vert := range vertices {
@@ -56,6 +64,38 @@ func (kgdb *KVInterfaceGDB) AddVertex(vertices []*gdbi.Vertex) error {
 		return bulkErr.ErrorOrNil()
 	})
 	return err
+}
+
+// lastVersions drops the elements of a batch that a later element of the same batch
+// replaces (same id): the last write to an id wins
+func lastVersions(elems []*gdbi.DataElement) []*gdbi.DataElement {
+	last := make(map[string]int, len(elems))
+	for i, e := range elems {
+		last[e.ID] = i
+	}
+	if len(last) == len(elems) {
+		return elems
+	}
+	out := make([]*gdbi.DataElement, 0, len(last))
+	for i, e := range elems {
+		if last[e.ID] == i {
+			out = append(out, e)
+		}
+	}
+	return out
+}
+
+// unindexVertex removes the index entries of the stored version of a vertex, so that
+// replacing it (possibly with another label) leaves no stale entries behind
+func (kgdb *KVInterfaceGDB) unindexVertex(id string) error {
+	old := kgdb.GetVertex(id, true)
+	if old == nil {
+		return nil
+	}
+	doc := map[string]interface{}{kgdb.graph: vertexIdxStruct(old.ToVertex())}
+	return kgdb.kvg.kv.Update(func(tx kvi.KVTransaction) error {
+		return kgdb.kvg.idx.RemoveDocTx(tx, id, doc)
+	})
 }
 
 // removeEdgeTx deletes the keys and the index entries of the stored edge `old`
@@ -70,6 +110,19 @@ func (kgdb *KVInterfaceGDB) removeEdgeTx(tx kvi.KVTransaction, old *gdbi.Edge) e
 	}
 	doc := map[string]interface{}{kgdb.graph: edgeIdxStruct(old.ToEdge())}
 	return kgdb.kvg.idx.RemoveDocTx(tx, old.ID, doc)
+}
+
+// replaceEdge removes the stored version of an edge that is about to be added again
+// with other endpoints or another label: its keys differ from the new ones and would
+// otherwise stay behind
+func (kgdb *KVInterfaceGDB) replaceEdge(edge *gdbi.Edge) error {
+	old := kgdb.GetEdge(edge.ID, true)
+	if old == nil || (old.From == edge.From && old.To == edge.To && old.Label == edge.Label) {
+		return nil
+	}
+	return kgdb.kvg.kv.Update(func(tx kvi.KVTransaction) error {
+		return kgdb.removeEdgeTx(tx, old)
+	})
 }
 
 func insertVertex(tx kvi.KVBulkWrite, idx *kvindex.KVIndex, graph string, vertex *gripql.Vertex) error {
@@ -134,6 +187,14 @@ func insertEdge(tx kvi.KVBulkWrite, idx *kvindex.KVIndex, graph string, edge *gr
 // AddEdge adds an edge to the graph, if the id is not "" and in already exists
 // in the graph, it is replaced
 func (kgdb *KVInterfaceGDB) AddEdge(edges []*gdbi.Edge) error {
+	edges = lastVersions(edges)
+	for _, edge := range edges {
+		if edge.ToEdge().Validate() == nil {
+			if err := kgdb.replaceEdge(edge); err != nil {
+				return err
+			}
+		}
+	}
 	err := kgdb.kvg.kv.BulkWrite(func(tx kvi.KVBulkWrite) error {
 		var bulkErr *multierror.Error
 		for _, edge := range edges {
@@ -147,26 +208,70 @@ func (kgdb *KVInterfaceGDB) AddEdge(edges []*gdbi.Edge) error {
 	return err
 }
 
+// bulkChunkSize is the number of elements BulkAdd writes per bulk write
+const bulkChunkSize = 10000
+
 func (kgdb *KVInterfaceGDB) BulkAdd(stream <-chan *gdbi.GraphElement) error {
-	err := kgdb.kvg.kv.BulkWrite(func(tx kvi.KVBulkWrite) error {
-		var bulkErr *multierror.Error
-		for elem := range stream {
-			if elem.Vertex != nil {
-				if err := insertVertex(tx, kgdb.kvg.idx, kgdb.graph, elem.Vertex.ToVertex()); err != nil {
-					bulkErr = multierror.Append(bulkErr, err)
+	var bulkErr *multierror.Error
+	// The stream is written in chunks. An element that replaces an element of the
+	// same chunk starts a new chunk, so that the version it replaces is stored and its
+	// keys and index entries can be removed first.
+	var pending *gdbi.GraphElement
+	for done := false; !done; {
+		seen := map[string]struct{}{}
+		err := kgdb.kvg.kv.BulkWrite(func(tx kvi.KVBulkWrite) error {
+			for len(seen) < bulkChunkSize {
+				elem := pending
+				pending = nil
+				if elem == nil {
+					var ok bool
+					if elem, ok = <-stream; !ok {
+						done = true
+						return nil
+					}
 				}
-				continue
-			}
-			if elem.Edge != nil {
-				if err := insertEdge(tx, kgdb.kvg.idx, kgdb.graph, elem.Edge.ToEdge()); err != nil {
-					bulkErr = multierror.Append(bulkErr, err)
+				if elem.Vertex != nil {
+					if _, ok := seen["v"+elem.Vertex.ID]; ok {
+						pending = elem
+						return nil
+					}
+					seen["v"+elem.Vertex.ID] = struct{}{}
+					if elem.Vertex.Validate() == nil {
+						if err := kgdb.unindexVertex(elem.Vertex.ID); err != nil {
+							bulkErr = multierror.Append(bulkErr, err)
+							continue
+						}
+					}
+					if err := insertVertex(tx, kgdb.kvg.idx, kgdb.graph, elem.Vertex.ToVertex()); err != nil {
+						bulkErr = multierror.Append(bulkErr, err)
+					}
+					continue
 				}
-				continue
+				if elem.Edge != nil {
+					if _, ok := seen["e"+elem.Edge.ID]; ok {
+						pending = elem
+						return nil
+					}
+					seen["e"+elem.Edge.ID] = struct{}{}
+					if elem.Edge.ToEdge().Validate() == nil {
+						if err := kgdb.replaceEdge(elem.Edge); err != nil {
+							bulkErr = multierror.Append(bulkErr, err)
+							continue
+						}
+					}
+					if err := insertEdge(tx, kgdb.kvg.idx, kgdb.graph, elem.Edge.ToEdge()); err != nil {
+						bulkErr = multierror.Append(bulkErr, err)
+					}
+					continue
+				}
 			}
+			return nil
+		})
+		if err != nil {
+			bulkErr = multierror.Append(bulkErr, err)
 		}
-		return bulkErr.ErrorOrNil()
-	})
-	return err
+	}
+	return bulkErr.ErrorOrNil()
 }
 
 // DelEdge deletes edge with id `key`
